@@ -20,7 +20,7 @@ func init() {
 		Rule: "full rate-limited flows client -> attester.VerifyRequest -> issuer.Evaluate -> attester.FinalizeIndex for 4 clients x 4 origins (two origins deliberately share one index key) x R requests each with fresh blind, each flow run against a fresh attester and against one long-lived attester per worker on which the client reuses one anonymous origin ID for all origins (incl. 1, N-1, leading-zero and > N encodings), nonce and challenge. " +
 			"Oracle: every returned index equals HKDF-SHA-384(salt = compress(client key), ikm = compress(k_o * client key), info = \"IssuerOriginAlias\", 48) with k_o = hash_to_field(bytes(index key D)||0x00||0x0003||\"IssuerBlind\"), all computed by the reference (own XMD, own HKDF, std curve); Evaluate's second value equals compress(k_o * request key); indices of distinct clients or distinct index keys differ; origins sharing an index key give equal indices. " +
 			"distinct_nontrivial = distinct (client, origin, blind class) triples",
-		Floors:      []string{"index_matches_reference", "blinded_request_key_matches_reference", "repeat_same_index", "distinct_pairs_differ", "shared_index_key_equal", "edge_blinds", "index_matches_reference_on_used_attester", "retained_ids_rechecked", "negated_key_request_refused", "index_key_replaced_flows_match_reference"},
+		Floors:      []string{"index_matches_reference", "blinded_request_key_matches_reference", "repeat_same_index", "distinct_pairs_differ", "shared_index_key_equal", "edge_blinds", "index_matches_reference_on_used_attester", "retained_ids_rechecked", "negated_key_request_refused", "index_key_replaced_flows_match_reference", "shared_key_object_origins_independent"},
 		Assumptions: []string{"crypto/elliptic, crypto/hmac and the SHA-2 family of the standard library are the trusted base of the reference"},
 		Run:         runC08,
 	})
@@ -322,6 +322,62 @@ func runC08(c *core.Ctx) {
 				}
 			}
 			c.Distinctf("rotation:%d:%d:%d", ci, o, rs)
+		}
+	}
+	// two origins registered with ONE index-key object, then one of them re-registered with another key: the other origin
+	// keeps its key, the caller's key objects and the handle OriginIndexKey gave out keep their values
+	for rs := 0; rs < c.Pick(4, 80); rs++ {
+		if !c.Next() {
+			continue
+		}
+		r := c.CaseRng()
+		c.Eval(1)
+		ci := r.IntN(nClients)
+		d := map[string]any{"client": ci}
+		bad := func(cls, what string) {
+			c.Violation("shared-key-object:"+cls, "index keys shared between origins: "+what, d)
+		}
+		pan, pv, where := core.Guard(func() {
+			is := type3.NewRateLimitedIssuer(rk[3])
+			dA, dB := ScalarBytes(r, N, 48), ScalarBytes(r, N, 48)
+			kA, err := ecdsa.CreateKey(curve, dA)
+			must(err)
+			kB, err := ecdsa.CreateKey(curve, dB)
+			must(err)
+			is.AddOriginWithIndexKey("one.example", kA)
+			is.AddOriginWithIndexKey("two.example", kA) // the same object
+			handle := is.OriginIndexKey("two.example")
+			is.AddOriginWithIndexKey("one.example", kB) // one.example gets another key
+			if kA.D.Cmp(new(big.Int).SetBytes(dA)) != 0 || kB.D.Cmp(new(big.Int).SetBytes(dB)) != 0 {
+				bad("caller-key-object-changed", "re-registering an origin changed a key object the caller had passed in")
+				return
+			}
+			if handle != nil && handle.D.Cmp(new(big.Int).SetBytes(dA)) != 0 {
+				bad("handle-changed", "the key OriginIndexKey returned for another origin changed when one origin was re-registered")
+				return
+			}
+			for name, dk := range map[string][]byte{"one.example": dB, "two.example": dA} {
+				blind := ScalarBytes(r, N, 48)
+				st, err := type3.NewRateLimitedClientFromSecret(secrets[ci]).CreateTokenRequest(r.Bytes(9), r.Bytes(32), blind, is.TokenKeyID(), is.TokenKey(), name, is.NameKey())
+				must(err)
+				_, brk, err := is.Evaluate(st.Request().Marshal())
+				if err != nil {
+					bad("evaluate-error", err.Error())
+					return
+				}
+				qx, qy, _ := ref.ECDecompress(curve, st.Request().RequestKey)
+				ko := ref.ECDSABlindScalar(curve, new(big.Int).SetBytes(dk), ctxIssuer)
+				bx, by := ref.ECMul(curve, qx, qy, ko)
+				if !bytes.Equal(brk, ref.ECCompress(curve, bx, by)) {
+					d["origin"] = name
+					bad("blinded-request-key", "after one origin was re-registered, "+name+" is evaluated with another index key than the one it is registered with")
+					return
+				}
+			}
+			c.Class("shared_key_object_origins_independent")
+		})
+		if pan {
+			bad("panic:"+where, pv)
 		}
 	}
 	// the shipped (Go-generated) vector as one more input: reference vs code is judged, vector agreement is informational
